@@ -252,7 +252,10 @@ impl Gen {
                 // ---- reward
                 let coll = o.collector();
                 let ch = o.channel();
-                let amount = boundary_amount(rng, 1, headroom.min(self.profile.max_amount / 10).max(2)).max(1);
+                // keep the exchange rate inside [1e-3, 1e3]: the properties (and the contract's fixed-point
+                // rates) are only defined there
+                let room = o.l.saturating_mul(900).saturating_sub(o.n).max(1);
+                let amount = boundary_amount(rng, 1, headroom.min(self.profile.max_amount / 10).min(room).max(2)).max(1);
                 if rng.chance(1, 10) {
                     let imp = rng.pick(&sc.native_users).clone();
                     return vec![Op::NativeMint { addr: imp.clone(), amount }, sc.reward(&imp, &ch, amount)];
